@@ -519,6 +519,45 @@ def check_C08(chk, binp):
     for (f1, f2), ss in byhash.items():
         if len(ss) == len(sel_seeds):
             viol.append(('positions with different rule keys collide under every seed', [f1, f2], True))
+    # EXHAUSTIVE over the features: the key of every (piece, square), of the side to move and of each castling right is recovered
+    # through the public API as hash(empty board + that one feature) xor hash(empty board); all 773 keys must be pairwise
+    # different and non-zero under every seed of the run (two features sharing a key = a structural collision)
+    def one_piece(ch, sq):
+        rows = []
+        for r in range(7, -1, -1):
+            row = ''
+            for fl in range(8):
+                row += ch if r * 8 + fl == sq else '1'
+            rows.append(re.sub(r'1+', lambda m: str(len(m.group(0))), row))
+        return '/'.join(rows) + ' w - - 0 1'
+    EMPTY = '8/8/8/8/8/8/8/8 w - - 0 1'
+    feats = [('empty', EMPTY), ('side', '8/8/8/8/8/8/8/8 b - - 0 1')] + [('right ' + r, '8/8/8/8/8/8/8/8 w %s - 0 1' % r) for r in 'KQkq']
+    feats += [('%s on %s' % (ch, 'abcdefgh'[sq % 8] + str(sq // 8 + 1)), one_piece(ch, sq)) for ch in 'PNBRQKpnbrqk' for sq in range(64)]
+    fcases = ['hash\t%d\t%s' % (sd, f) for sd in sel_seeds for (_, f) in feats]
+    fimpl = run_cases(binp, fcases, 'C08-feat')
+    fviol = []
+    for k, sd in enumerate(sel_seeds):
+        hv = fimpl[k * len(feats):(k + 1) * len(feats)]
+        if any(h is None or not h.isdigit() for h in hv):
+            fviol.append(('feature hashing failed under seed %d' % sd, [feats[j][1] for j, h in enumerate(hv) if h is None or not h.isdigit()][:2])); continue
+        h0 = int(hv[0])
+        keys_seen = {}
+        for (name, fen), h in list(zip(feats, hv))[1:]:
+            key = int(h) ^ h0
+            if key == 0:
+                fviol.append(('the feature "%s" has no key: adding it does not change the hash (seed %d)' % (name, sd), [EMPTY, fen]))
+            elif key in keys_seen:
+                fviol.append(('the features "%s" and "%s" share a key: placements that differ only in them collide (seed %d)' % (keys_seen[key][0], name, sd), [keys_seen[key][1], fen]))
+            keys_seen.setdefault(key, (name, fen))
+    # a shared key is structural when it shows under EVERY seed
+    shared = {}
+    for what, fs in fviol:
+        shared.setdefault(what.rsplit(' (seed', 1)[0], []).append(fs)
+    fstruct = [(w, l[0]) for w, l in shared.items() if len(l) == len(sel_seeds)]
+    chk.streams.append({'name': 'all 773 feature keys (768 piece-square, side, 4 rights) recovered through the public API are pairwise different and non-zero', 'against': 'the property (structural collisions)', 'cases': len(fcases), 'disagreements': len(fstruct)})
+    chk.evaluations += len(fcases)
+    for w, fs in fstruct[:3]:
+        viol.append((w + ' under every seed', fs, True))
     classes = {}
     for f, cls, v, eq in var:
         classes[cls] = classes.get(cls, 0) + 1
@@ -694,12 +733,46 @@ def mating_family(rnd, n):
         out.append(f if rnd.random() < 0.5 else mirror_fen(f))
     return out
 
+# stalemates in which the stalemated side still has a piece with pseudo-legal moves, all illegal because of an absolute pin
+# (knight, bishop on a rank, pawn and rook on a diagonal), with their mirror images; and a seeded family of the same kind
+PINNED_STALEMATES = ['8/8/8/8/8/6k1/8/r5NK w - - 0 1', 'kb5R/8/1K6/8/8/8/8/8 b - - 0 1', 'b1k5/8/3b4/8/8/8/4n1P1/7K w - - 0 1',
+                     'k7/1r1N4/1K6/8/8/8/8/7B b - - 0 1', 'k7/1n1N4/1K6/8/8/8/8/7B b - - 0 1', 'kn5R/8/1K6/8/8/8/8/8 b - - 0 1',
+                     '7k/6p1/5N1K/8/8/8/8/1B6 b - - 0 1']
+
+def pinned_family(rnd, n):
+    """defender: king in a corner with one more piece next to it; attacker: king, a slider somewhere on a line through the
+    defender's piece and king, and one more piece: candidates for stalemates with a pinned piece (the rules decide)"""
+    out = []
+    for _ in range(n):
+        corner = rnd.choice([0, 7, 56, 63])
+        adj = [s for s in range(64) if s != corner and max(abs(s % 8 - corner % 8), abs(s // 8 - corner // 8)) == 1]
+        ps = rnd.choice(adj)
+        df, dr = ps % 8 - corner % 8, ps // 8 - corner // 8
+        line = []
+        f, r = ps % 8 + df, ps // 8 + dr
+        while 0 <= f <= 7 and 0 <= r <= 7:
+            line.append(r * 8 + f); f += df; r += dr
+        if len(line) < 2:
+            continue
+        slider = rnd.choice(line[1:])
+        m = {corner: 'k', ps: rnd.choice('nbrp' if ps // 8 not in (0, 7) else 'nbr'), slider: ('R' if 0 in (df, dr) else 'B') if rnd.random() < 0.8 else 'Q'}
+        free = [s for s in range(64) if s not in m and max(abs(s % 8 - corner % 8), abs(s // 8 - corner // 8)) <= 3]
+        if len(free) < 2:
+            continue
+        a, b = rnd.sample(free, 2)
+        m[a] = 'K'; m[b] = rnd.choice('NBRQN')
+        if len(m) != 5:
+            continue
+        f0 = G.fen_from_map(m, 'b')
+        out.append(f0 if rnd.random() < 0.5 else mirror_fen(f0))
+    return out
+
 def eval_positions(chk, tag):
     quick = chk.tier == 'quick'
     rnd = random.Random(chk.seed + 5)
     pos = G.positions(chk.seed, chk.tier, tag)
-    fam = mating_family(rnd, 6000 if quick else 200000)
-    pos += G.filter_legal(list(dict.fromkeys(fam)), tag + '-mf')
+    fam = mating_family(rnd, 6000 if quick else 200000) + pinned_family(rnd, 4000 if quick else 100000)
+    pos += G.filter_legal(list(dict.fromkeys(fam + PINNED_STALEMATES + [mirror_fen(f) for f in PINNED_STALEMATES])), tag + '-mf')
     return list(dict.fromkeys(pos))
 
 def check_C13(chk, binp):
@@ -1825,7 +1898,8 @@ def check_C14(chk, binp):
         se = U.Session(binp)
         probs = []
         try:
-            st = se.send('position startpos moves e2e4')
+            # a position that is NOT in the opening book, so that go really starts a search (and its timer)
+            st = se.send('position fen 4k3/8/8/8/8/8/4P3/4K3 w - - 0 1 moves e2e4')
             if not st['synced']: probs.append('no readyok after position')
             st = se.send(line)
             if not st['synced']: probs.append('no readyok after %r' % line)
@@ -1834,7 +1908,7 @@ def check_C14(chk, binp):
             if not st['synced']: probs.append('no readyok after stop (following %r)' % line)
             st = se.send('.state')
             fen = U.state_fen(st)
-            if fen is None or not fen.startswith('rnbqkbnr/pppppppp/8/8/4P3/8/PPPP1PPP/RNBQKBNR b KQkq'):
+            if fen is None or not fen.startswith('4k3/8/8/8/4P3/8/8/4K3 b - '):
                 probs.append('position lost after %r: %r' % (line, fen))
         finally:
             rc = se.close()
@@ -1981,7 +2055,11 @@ def check_C16(chk, binp):
     rnd = random.Random(chk.seed)
     games = book_games()
     chk.extra['games_in_book'] = len(games)
-    sel = games if not quick else rnd.sample(games, min(len(games), 500))
+    # quick: a seeded sample PLUS every game whose first ten plies contain a check (pins: SAN may then omit a disambiguation
+    # that looks necessary) or a disambiguated piece move - the token classes a parser shortcut gets wrong
+    def special(g):
+        return any('+' in t or '#' in t for t in g) or any(re.match(r'^[NBRQK][a-h1-8]x?[a-h][1-8]', t) for t in g)
+    sel = games if not quick else rnd.sample(games, min(len(games), 400)) + [g for g in games if special(g)]
     # resolve every (position, token) by the rules (SanSpec), breadth first over the trie of game prefixes
     succ = {}     # (fen, token) -> (move, next fen)
     frontier = {G.START}
@@ -2062,7 +2140,7 @@ def check_C16(chk, binp):
     chk.streams.append({'name': 'book positions with other move counters: the same offers', 'against': 'the offers for the position as it occurs in the games (the counters are not part of the position)', 'cases': len(cv), 'disagreements': len(cbad)})
     # the extracted model of the book builder (tokenizer, SAN parse, FIRST matching legal move, ten plies) on the same games
     raw = book_games_raw()
-    rsel = raw if not quick else random.Random(chk.seed).sample(raw, min(len(raw), 500))
+    rsel = raw if not quick else random.Random(chk.seed).sample(raw, min(len(raw), 400)) + [g for g in raw if any('+' in t for t in g[:16])][:300]
     me = run_cases(MODEL, ['bookgame\t' + G.esc(' '.join(g)) for g in rsel], 'C16-model')
     mpos = {}
     merr = [g for g, r in zip(rsel, me) if r is None or r == 'error' or '!HASH' in (r or '')]
